@@ -233,6 +233,7 @@ class timemodel(_coreiterative):
         self.reset(itstart=0) # reset cputime and nit
         self._remove_monitor_output(monitors)
         self._remove_monitor_output(self.monitors)
+        self.__dict__.pop("_lastresidual", None) # multistep memory is not kept between independent solve
         return self._solve(f, condition, tsave, stop, flush, monitors, directives)
 
     def restart(self, f, condition, tsave=[], 
